@@ -289,3 +289,39 @@ Theorem C05_uninterpreted_if_data_offsets_are_line_differences : forall f c isb,
   exists ts, adv ts s s' /\ lines_as (prevl s) ts (IL.goffs g).
 Proof. intros f c isb Hc. exact (proj1 (IUL.unknown_ifdata_offsets_are_line_differences f) c isb Hc). Qed.
 Print Assumptions C05_uninterpreted_if_data_offsets_are_line_differences.
+
+(* ... and without any premise on the value: whatever the typed parser returned from a run that reports nothing has the shape the writer
+   theorems need (no include attribution, content of tagged items is a block - Proofs/IfdataShapeProofs.v), so: read IF_DATA content with
+   the typed parser, write what came back, scan the written text - its tokens stand, one by one, for the tokens that were read
+   ([reads_as], C02) and on the lines they were read from (C05).  Remaining conditions: the token texts of the value are well-formed
+   tokens, and the tags behind /begin and /end stand on the line of their /begin and /end. *)
+From A2L Require Proofs.ParseTraceProofs.
+Theorem C05_if_data_read_write_scan : forall ftab names f F' ty c s g s' indent,
+  c_fileid c = O -> Inv s -> first_ok s -> ps_ftab s = ftab -> (ty_depth ty <= F')%nat ->
+  parse_ifdata_item F' ty c s = (ROk g, s') -> ps_log s' = ps_log s -> ps_after s' <> [] ->
+  (ITx.gdepth g <= f)%nat -> Forall LexUnitsProofs.token_text (IFo.ftoks ftab g) ->
+  exists ts toks',
+    adv ts s s' /\
+    tokenize_core 0 (gifd_write ftab names f g indent) = TOk toks' /\
+    Forall2 (ParseTraceProofs.reads_as ftab) ts (map shape_of toks') /\
+    (LinePreservationProofs.inline (prevl s) ts (IL.goffs g) ->
+     Forall2 (fun t' t => (tk_line t' + prevl s = tk_line t + 1)%N) toks' ts).
+Proof. intros ftab names f F' ty c s g s' indent. exact (IP.ifdata_read_write_scan ftab names f F' ty c s g s' indent). Qed.
+Print Assumptions C05_if_data_read_write_scan.
+
+(* ... and the same for IF_DATA that no definition describes: read it with the uninterpreted reader, write what came back, scan the written
+   text - token for token what was read ([reads_as]: a number as the text of the value it was read as), on the lines it was read from *)
+From A2L Require Proofs.IfdataUnknownShapeProofs.
+Module IUS := A2L.Proofs.IfdataUnknownShapeProofs.
+Theorem C05_uninterpreted_if_data_read_write_scan : forall ftab names fu c isb s g s' f indent,
+  c_fileid c = O -> Inv s -> first_ok s -> ps_ftab s = ftab ->
+  unknown_ifdata fu c isb s = (ROk g, s') -> ps_log s' = ps_log s -> ps_after s' <> [] ->
+  (ITx.gdepth g <= f)%nat -> Forall LexUnitsProofs.token_text (IFo.ftoks ftab g) ->
+  exists ts toks',
+    adv ts s s' /\
+    tokenize_core 0 (gifd_write ftab names f g indent) = TOk toks' /\
+    Forall2 (ParseTraceProofs.reads_as ftab) ts (map shape_of toks') /\
+    (LinePreservationProofs.inline (prevl s) ts (IL.goffs g) ->
+     Forall2 (fun t' t => (tk_line t' + prevl s = tk_line t + 1)%N) toks' ts).
+Proof. intros ftab names fu c isb s g s' f indent. exact (IUS.unknown_ifdata_read_write_scan ftab names fu c isb s g s' f indent). Qed.
+Print Assumptions C05_uninterpreted_if_data_read_write_scan.
